@@ -281,6 +281,8 @@ def refsub(s, t, T, fuel=40):
         return False
     if kt == 'w':
         return False
+    if kt == 'b' and T.top is not None and t[1] == T.top:
+        return True                      # the implicit top type is above every class, builtin and variable
     if ks == 'v':
         if s[3] is None:
             return False
